@@ -545,17 +545,25 @@ func c10(c *core.Ctx, r *core.Report) {
 	// pastEnd: the guard states cursor >= len(stages)
 	pastEnd := func(g an.Guard) bool {
 		bo, ok := g.Cond.(*ssa.BinOp)
-		if !ok || !isLoadOf(g.T(bo.X), curFld) {
+		if !ok {
 			return false
 		}
-		k, ok := lenStagesPlus(g.T(bo.Y))
+		// the cursor may stand on either side of the comparison
+		x, y, op := bo.X, bo.Y, bo.Op
+		if !isLoadOf(g.T(x), curFld) && isLoadOf(g.T(y), curFld) {
+			x, y, op = y, x, mirrorCmp(op)
+		}
+		if !isLoadOf(g.T(x), curFld) {
+			return false
+		}
+		k, ok := lenStagesPlus(g.T(y))
 		if !ok {
 			return false
 		}
 		switch {
-		case bo.Op == token.GTR && k == -1, bo.Op == token.GEQ && k == 0:
+		case op == token.GTR && k == -1, op == token.GEQ && k == 0:
 			return g.Polarity
-		case bo.Op == token.LEQ && k == -1, bo.Op == token.LSS && k == 0:
+		case op == token.LEQ && k == -1, op == token.LSS && k == 0:
 			return !g.Polarity
 		}
 		return false
@@ -1565,4 +1573,19 @@ func c13(c *core.Ctx, r *core.Report) {
 			r.Exists("WithJitter#zero-identity-absent", c.Pos(wj.Pos()), "no zero-jitter early return (information only)")
 		}
 	})
+}
+
+// mirrorCmp: the operator of the same comparison with its operands exchanged.
+func mirrorCmp(op token.Token) token.Token {
+	switch op {
+	case token.LSS:
+		return token.GTR
+	case token.GTR:
+		return token.LSS
+	case token.LEQ:
+		return token.GEQ
+	case token.GEQ:
+		return token.LEQ
+	}
+	return op
 }
